@@ -31,10 +31,10 @@ func TestVerifReplay(t *testing.T) {
 		}
 	}
 	cases := map[string]*extv1.CustomResourceDefinitionNames{
-		"no claim":              nil,
-		"proper claim":          {Kind: "Thing", ListKind: "ThingList", Plural: "things", Singular: "thing"},
-		"claim kind collides":   {Kind: "XThing", ListKind: "ThingList", Plural: "things", Singular: "thing"},
-		"claim plural collides": {Kind: "Thing", ListKind: "ThingList", Plural: "xthings", Singular: "thing"},
+		"no claim":                nil,
+		"proper claim":            {Kind: "Thing", ListKind: "ThingList", Plural: "things", Singular: "thing"},
+		"claim kind collides":     {Kind: "XThing", ListKind: "ThingList", Plural: "things", Singular: "thing"},
+		"claim plural collides":   {Kind: "Thing", ListKind: "ThingList", Plural: "xthings", Singular: "thing"},
 		"claim singular collides": {Kind: "Thing", ListKind: "ThingList", Plural: "things", Singular: "xthing"},
 		"claim listKind collides": {Kind: "Thing", ListKind: "XThingList", Plural: "things", Singular: "thing"},
 	}
